@@ -408,4 +408,55 @@ example : (match (storeDivide 6 ["G"] (.dict [("mother", .str "k1"),
     | .ok r => r.2.1.keysAt ["G"]
     | .error _ => none) = some ["d0", "d1"] := by decide
 
+/-- `deps` is what the flow dictionary `flow` holds at the relative path `path` (through plain
+dictionaries, down to a value that is not a dictionary: the list of dependencies of a step) -/
+inductive FlowAt : Val → Path → Val → Prop
+  | here (v : Val) (hv : ∀ kvs, v ≠ .dict kvs) : FlowAt v [] v
+  | step (kvs : KVs) (k : String) (v : Val) (rest : Path) (deps : Val)
+      (hk : (k, v) ∈ kvs) (hnp : KV.has "__proc__" kvs = false) (h : FlowAt v rest deps) :
+      FlowAt (.dict kvs) (k :: rest) deps
+
+theorem procPathsKids_mem (root : Path) (kvs : KVs) (k : String) (v : Val) (x : Val × Val)
+    (hk : (k, v) ∈ kvs) (hx : x ∈ procPaths (root ++ [k]) v) : x ∈ procPathsKids root kvs := by
+  induction kvs with
+  | nil => cases hk
+  | cons hd tl ih =>
+    obtain ⟨k', v'⟩ := hd
+    simp only [procPathsKids, List.mem_append]
+    rcases List.mem_cons.mp hk with h | h
+    · injection h with h1 h2
+      subst h1; subst h2
+      exact Or.inl hx
+    · exact Or.inr (ih h)
+
+/-- **The flow of a generated compartment is reported at every depth** (`Store.insert` since fix
+61e1f38: `dict_to_paths(root, flow)`): whatever dependencies the `_generate` directive's flow holds
+for a step at a relative path — directly under the generated key or in a sub-dictionary at any
+depth — the report handed to the engine lists exactly that step path with those dependencies, so
+the engine schedules the step at its place in the flow (C05, C10). -/
+theorem generate_reports_flow_at_any_depth (root path : Path) (flow deps : Val)
+    (h : FlowAt flow path deps) : (pathVal (root ++ path), deps) ∈ procPaths root flow := by
+  induction h generalizing root with
+  | here v hv =>
+    cases v with
+    | dict kvs => exact absurd rfl (hv kvs)
+    | _ => simp [procPaths]
+  | step kvs k v rest deps hk hnp _ ih =>
+    have := ih (root ++ [k])
+    rw [List.append_assoc] at this
+    simp only [procPaths, hnp, Bool.false_eq_true, if_false]
+    exact procPathsKids_mem root kvs k v _ hk this
+
+/-- non-vacuity: the flow of the F41 witness (`second` depends on `first`, both in the sub-dictionary
+`inner` of the generated key `g` below `agents`) -/
+example :
+    let flow : Val := .dict [("inner", .dict [("second", .list [.list [.str "first"]]), ("first", .list [])])]
+    (pathVal (["agents", "g"] ++ ["inner", "second"]), Val.list [.list [.str "first"]]) ∈
+      procPaths ["agents", "g"] flow := by
+  apply generate_reports_flow_at_any_depth
+  exact .step _ "inner" (.dict [("second", .list [.list [.str "first"]]), ("first", .list [])]) _ _
+    (List.mem_cons_self ..) rfl
+    (.step _ "second" (.list [.list [.str "first"]]) _ _ (List.mem_cons_self ..) rfl
+      (.here _ (by intro kvs h; cases h)))
+
 end VivProps.C09
